@@ -52,13 +52,20 @@ def ordinalNumber (n : Nat) : String :=
 /-- `Manipulator.FuncName` -/
 def manipFuncName (pkg name : String) : String := if pkg != "" then pkg ++ "." ++ name else name
 
+/-- the qualifier of a hook call: the name its package is imported under; none for the current
+package and for a dot import -/
+def hookQualifier (env : Env) (pkgPath : String) : String :=
+  match env.importName pkgPath with
+  | some n => if n == "." then "" else n
+  | none => ""
+
 /-- `buildManipulator` -/
 def buildManipulator (env : Env) (m? : Option ManipOpt) (src dst : ParamVar) (args : List ParamVar)
     (retError : Bool) : Outcome (Option Manipulator) :=
   match m? with
   | none => .ok none
   | some m =>
-    let pkg := (env.importName m.pkgPath).getD ""
+    let pkg := hookQualifier env m.pkgPath
     let fname := manipFuncName pkg m.name
     let err (msg : String) : Outcome (Option Manipulator) := .error [s!"{m.pos}: {msg}"]
     if pkg != "" && !m.exported then err s!"manipulator function {fname} is not exported" else
